@@ -1,7 +1,7 @@
 (* C18 -- Build output is logged completely, once, and under the right
    target.  Part (a): structured records survive formatting and re-parsing. *)
-From Coq Require Import ZArith.
-From Redo Require Import Base.Bytes LogRec.Meta LogRec.MetaProofs.
+From Coq Require Import ZArith List.
+From Redo Require Import Base.Bytes LogRec.Meta LogRec.MetaProofs LogRec.Assemble.
 
 (* every record a writer may produce (kind without ':' '@' newline, text
    without newline -- it MAY contain "@@ " or "@@REDO:" --, any i32 pid, any
@@ -38,3 +38,41 @@ Example C18a_example :
               text := [64;64;82;69;68;79;58;120;58;49;58;50;64;64;32;121] |} in
   wf_meta m = true /\ parse (format m) = Some m.
 Proof. vm_compute. split; reflexivity. Qed.
+
+(* ---------------------------------------------------------------- (b) partial lines
+   The follower's partial-line buffer (catlog: pieces returned by read_until
+   are appended to line_head until a newline arrives), for every fragmentation
+   of the log's bytes: nothing is lost or duplicated, every line shown is one
+   complete line, and the lines shown do not depend on how the bytes arrived.
+   Only the buffer logic is modelled (LogRec/Assemble.v); it is tied to the
+   code by the end-to-end runs with lines written in 3-5 pieces. *)
+Theorem C18_assemble_nothing_lost : forall cs head,
+  concat (fst (assemble head cs)) ++ snd (assemble head cs) = head ++ concat cs.
+Proof. exact assemble_concat. Qed.
+Check C18_assemble_nothing_lost : forall cs head,
+  concat (fst (assemble head cs)) ++ snd (assemble head cs) = head ++ concat cs.
+Print Assumptions C18_assemble_nothing_lost.
+
+Theorem C18_assemble_complete_lines : forall cs head,
+  Forall piece_ok cs -> nl_free head ->
+  Forall is_line (fst (assemble head cs)) /\ nl_free (snd (assemble head cs)).
+Proof. exact assemble_lines. Qed.
+Check C18_assemble_complete_lines : forall cs head,
+  Forall (fun c => c <> nil /\ ~ In nl (removelast c)) cs -> ~ In nl head ->
+  Forall (fun l => exists b, l = b ++ (nl :: nil) /\ ~ In nl b) (fst (assemble head cs)) /\ ~ In nl (snd (assemble head cs)).
+Print Assumptions C18_assemble_complete_lines.
+
+Theorem C18_fragmentation_independent : forall cs1 cs2,
+  Forall piece_ok cs1 -> Forall piece_ok cs2 -> concat cs1 = concat cs2 ->
+  assemble nil cs1 = assemble nil cs2.
+Proof. exact assemble_fragmentation_independent. Qed.
+Check C18_fragmentation_independent : forall cs1 cs2,
+  Forall piece_ok cs1 -> Forall piece_ok cs2 -> concat cs1 = concat cs2 ->
+  assemble nil cs1 = assemble nil cs2.
+Print Assumptions C18_fragmentation_independent.
+
+(* non-vacuity: "ab\ncd\ne" arriving as a | b\n c | d | \n | e *)
+Example C18_assemble_example :
+  assemble nil ((97 :: nil) :: (98 :: 10 :: nil) :: (99 :: nil) :: (100 :: nil) :: (10 :: nil) :: (101 :: nil) :: nil)%N
+  = (((97 :: 98 :: 10 :: nil) :: (99 :: 100 :: 10 :: nil) :: nil)%N, (101 :: nil)%N).
+Proof. vm_compute. reflexivity. Qed.
